@@ -56,6 +56,9 @@ def _downgraded(ctx, call_plain, R, e, info):
                 lambda: dict(info(), upgraded=repr(e) if e else str(R), plain=repr(e2) if e2 else str(R2)))
     ctx.require('plain-warns', any(issubclass(c, DeprecationWarning) for c in cats),
                 lambda: dict(info(), warnings=repr(cats)))
+    if e2 is None:
+        wf2 = well_formed(R2)
+        ctx.require('plain-result-well-formed', wf2 is None, lambda: dict(info(), problem=wf2, result=str(R2)))
     if e is None and e2 is None:
         ctx.require('plain-same-params', params_key(R, True) == params_key(R2, True),
                     lambda: dict(info(), upgraded=str(R), plain=str(R2)))
